@@ -67,10 +67,10 @@ theorem new_group_is_source (heap_g : List PyRt.GData) (self_groups : Option (Li
 
 example : (ibHs.map (·.1)).Nodup := by decide
 example : Gen.Imp.ChrNamer_new_group [conG (ibGroups.getD 0 [])] (some [0]) ibHs
-    = .ok ([conG (ibGroups.getD 0 []), [(ibHap1, []), (ibHap2, [])]], some [0, 1], 1) := by decide
+    = .ok ([conG (ibGroups.getD 0 []), [(ibHap1, []), (ibHap2, [])]], some [0, 1], 1) := rfl
 /-- why `Nodup`: a repeated key -/
 example : Gen.Imp.ChrNamer_new_group [] (some []) [(ibHap1, true), (ibHap1, false)] = .ok ([[(ibHap1, [])]], some [0], 0)
-    ∧ newGroup [ibHap1, ibHap1] = [(ibHap1, []), (ibHap1, [])] := by decide
+    ∧ newGroup [ibHap1, ibHap1] = [(ibHap1, []), (ibHap1, [])] := ⟨rfl, rfl⟩
 
 /-! ### 2. `check_for_painted_scaffolds_missing_haplotype_tag` -/
 
@@ -154,17 +154,17 @@ theorem build_groups_no_entries_differs (heap_b : List Scaffold) (heap_g : List 
 /-- the hypotheses hold of the running example, which makes three groups (a second Hap1 scaffold; a Singleton) in an arena that already
     holds one object -/
 example : ibHs ≠ [] ∧ (ibHs.map (·.1)).Nodup ∧ ibEntries ≠ [] ∧ ∀ e ∈ ibEntries, e.1 ∈ ibHs.map (·.1) := by decide
-example : Gen.Imp.ChrNamer_build_groups ibHeapB [[]] (some []) ibHs ibEntries = .ok ([] :: ibGroups.map conG, some [1, 2, 3]) := by decide
-example : buildGroups ibHeapB (ibHs.map (·.1)) ibEntries = .ok ibGroups ∧ groupsHaveErrors ibGroups = false := by decide
+example : Gen.Imp.ChrNamer_build_groups ibHeapB [[]] (some []) ibHs ibEntries = .ok ([] :: ibGroups.map conG, some [1, 2, 3]) := rfl
+example : buildGroups ibHeapB (ibHs.map (·.1)) ibEntries = .ok ibGroups ∧ groupsHaveErrors ibGroups = false := ⟨rfl, rfl⟩
 /-- ChrNamerError: two consecutive Hap1 scaffolds with different original names, the first not a Singleton -/
-example : Gen.Imp.ChrNamer_build_groups ibHeapB [] (some []) ibHs [(ibHap1, 0), (ibHap1, 4)] = .error .chrNamer := by decide
+example : Gen.Imp.ChrNamer_build_groups ibHeapB [] (some []) ibHs [(ibHap1, 0), (ibHap1, 4)] = .error .chrNamer := rfl
 /-- ValueError first: a reference to a scaffold without `original_name` (here: out of the arena) -/
-example : Gen.Imp.ChrNamer_build_groups ibHeapB [] (some []) ibHs [(ibHap1, 0), (ibHap1, 4), (ibHap2, 9)] = .error .value := by decide
+example : Gen.Imp.ChrNamer_build_groups ibHeapB [] (some []) ibHs [(ibHap1, 0), (ibHap1, 4), (ibHap2, 9)] = .error .value := rfl
 /-- THE DIFFERENCE (b): a haplotype text that is not a key -/
 example : Gen.Imp.ChrNamer_build_groups ibHeapB [] (some []) [(ibHap1, true)] [(ibHap2, 0)] = .error .attribute
-    ∧ buildGroups ibHeapB [ibHap1] [(ibHap2, 0)] = .ok [[(ibHap1, []), (ibHap2, [(['S', '1'], [0])])]] := by decide
+    ∧ buildGroups ibHeapB [ibHap1] [(ibHap2, 0)] = .ok [[(ibHap1, []), (ibHap2, [(['S', '1'], [0])])]] := ⟨rfl, rfl⟩
 /-- THE DIFFERENCE (a) -/
 example : Gen.Imp.ChrNamer_build_groups ibHeapB [] (some []) ibHs [] = .ok ([[(ibHap1, []), (ibHap2, [])]], some [0])
-    ∧ groupsHaveErrors [newGroup (ibHs.map (·.1))] = true := by decide
+    ∧ groupsHaveErrors [newGroup (ibHs.map (·.1))] = true := ⟨rfl, rfl⟩
 
 end AgpTpf.C10
